@@ -65,7 +65,7 @@ def check_rdms(run, E):
         d = res.fields.get('dissimilarities')
         a1 = peel(d, 'attr.dissimilarities')
         a2 = peel(a1[0], 'rsatoolbox.rdm.calc.calc_rdm') if a1 else None
-        ck.ensure('post/values-are-list-calc_rdm', z3.BoolVal(a2 is not None))
+        ck.ensure('post/values-are-list-calc_rdm', z3.BoolVal(a2 is not None), structure=True)
         if a2 is None:
             return
         fv = E.find_function('rsatoolbox.rdm.calc.calc_rdm')
